@@ -676,6 +676,8 @@ def run(ck: Checker) -> None:
     ck.guard("R-SINGLETON-STATE", lambda: r_singleton_state(ck, matcher_classes(ck)))
     ck.guard("R-POSTINIT-IDEMP", lambda: r_postinit_idemp(ck))
     ck.guard("R-PURE-MATCH", lambda: r_pure_match(ck))
+    from .c17 import r_regex_text_verbatim
+    ck.guard("R-PURE-MATCH", lambda: r_regex_text_verbatim(ck, "R-PURE-MATCH"))  # the regex that is matched is the one the user wrote
     ck.guard("R-MULTI-ORDER", lambda: r_multi_order(ck))
     from .c17 import r_no_memo
     ck.guard("R-NO-MEMO", lambda: r_no_memo(ck))
